@@ -45,9 +45,9 @@ P = {
          "login, state query and the Spec's status frame of the merged values (requested, else reported; swing off for separate-swing "
          "remotes); the IR call writes exactly login, state query and the frame of the IR code the C15 Spec chooses for the merged "
          "values, plus a fourth frame with the Spec's swing code iff a separate-swing remote was asked for swing; swing-only writes "
-         "login and the swing frame; nothing actionable and an empty login reply raise RuntimeError after the login frame only. "
+         "login and the swing frame; nothing actionable and an empty login reply raise RuntimeError after the login frame only; for every script, a non-empty (successful) response implies that every reply read was non-empty. "
          "Per run 1000+ (current state, request subset, remote kind, update flag, fault) cases against the real client.", "5 C16",
-         "replies that fail to parse or are empty after the login are covered by the per-run oracle and C09's theorems, not by the exactness theorems"),
+         "state replies that fail to parse are covered by C09's theorems and the per-run oracle, not by the exactness theorems"),
  "C17": ("proof", "Theorems over all action sequences and port lists of the lifecycle model: running iff all ports held, nothing held when not "
          "running (also after a failed start), delivery iff held; the same for any number of bridge objects in one process, with "
          "non-interference between objects (start, failed start, stop of another object change nothing); per run every action sequence of length <= 3 on real UDP sockets with "
